@@ -525,6 +525,17 @@ impl<R: BufRead> NsReader<R> {
         Ok(span)
     }
 //@end
+
+// TWINS: the hand-written asynchronous copies (src/reader/async_tokio.rs) of the two functions above, with
+// `async` / `.await` erased (A-await) and their names mapped, verified against the SAME annotations.
+//@extract ns_reader::NsReader::read_to_end_into#async | src/reader/async_tokio.rs :: impl<R: AsyncBufRead + Unpin> NsReader<R> :: fn read_to_end_into_async | clone_of=ns_reader::NsReader::read_to_end_into rename=read_to_end_into:read_to_end_into__async drop=async,await serves=C05 nocanary=1
+//@rewrite fn read_to_end_into_async ==> fn read_to_end_into
+//@rewrite self.reader.read_to_end_into_async( ==> self.reader.read_to_end_into(
+//@end
+//@extract ns_reader::NsReader::read_event_impl#async | src/reader/async_tokio.rs :: impl<R: AsyncBufRead + Unpin> NsReader<R> :: fn read_event_into_async | clone_of=ns_reader::NsReader::read_event_impl rename=read_event_impl:read_event_impl__async drop=async,await serves=C05 nocanary=1
+//@rewrite fn read_event_into_async ==> fn read_event_impl
+//@rewrite self.reader.read_event_into_async( ==> self.reader.read_event_impl(
+//@end
 }
 
 impl<'i> NsReader<&'i [u8]> {
